@@ -26,6 +26,13 @@ change the bytes.
     bytes -> other bytes, ...), and written again under the same settings object, through StreamOut.add and through repeated
     calls of one generated client / server with the same argument / result objects: EVERY write must be the interpreter's
     encoding of the values as they stand at that moment.
+ 4. histories on the READING side (harness/c13_redecode.py): the same interpreter-made bytes are decoded again and again
+    (Structure.decode, argument decoding of every generated server method, response decoding of every generated client
+    method) while the application changes the objects it was handed in place (StationURL.__setitem__, DateTime / Result
+    state, list / dict / structure / payload mutation at every site, then everything reachable at once): EVERY decode must
+    give, field by field, the interpreter's visible value of the bytes and re-encode to the interpreter's bytes, and a
+    change of ONE site of a decoded value must leave the rest of that value as it was (twins: equal values in one list / map
+    / pair of attributes or arguments; empty and absent values).
 """
 import concurrent.futures, multiprocessing, os, time
 import vf
@@ -33,6 +40,7 @@ from schema_proto2lean import load_env
 import schema_tie as T
 import schema_c13_focus as F
 import c13_inplace as IP
+import c13_redecode as RD
 
 LEVEL = "proof"
 
@@ -91,8 +99,14 @@ def run(ctx):
                 "(inner structure attribute through the inner object, list append/setitem/del, dict set/new/del, attribute of a list element, attribute of the "
                 "written object incl. bytes->other bytes; categories in rotation so that every class sees every category it has a site for) each followed by a write "
                 "under the same settings object (StreamOut.add, one accumulating stream, repeated calls of one generated client/server with the same objects): "
-                "every write vs the interpreter's encoding of the current value. "
-                "distinct non-trivial = distinct (module, item, configuration, repetition) cases that agreed" % ("1" if quick else "6", 4 if quick else 6))
+                "every write vs the interpreter's encoding of the current value; "
+                "plus histories of DECODES per (structure class | method request | method response, configuration, start value in {marker with twins, one of random / random "
+                "with twins / all-empty / every station url empty / every station url absent in rotation}): the interpreter's bytes decoded by the real code, %d single-site "
+                "in-place mutations of the decoded object (the inplace categories + StationURL.__setitem__, DateTime.val, Result.error_code; categories in rotation), each "
+                "followed by reading the whole object back (only that site may have changed), decode again, one more single-site mutation, then EVERYTHING reachable from all "
+                "decoded objects mutated in place, decode again under a fresh settings / server / client object: every decode vs the interpreter's visible value of the bytes, "
+                "nothing undecoded, and re-encoded vs the interpreter's bytes. "
+                "distinct non-trivial = distinct (module, item, configuration, repetition) cases that agreed" % ("1" if quick else "6", 4 if quick else 6, 2 if quick else 4))
     # ---- 1. translate + cross-check the two readers
     # The definition, as the independent reader reads it, is the authority of the property. A disagreement with the
     # repository's own reader is not reported here: the items the readings differ on become the *focus* of the tie
@@ -120,6 +134,7 @@ def run(ctx):
     # ---- 3. exhaustive tie, one fresh process per (module, slice of configurations)
     per_item = 1 if quick else 6
     ip_steps = 4 if quick else 6          # mutations per object history (each followed by a write)
+    rd_steps = 2 if quick else 4          # single-site mutations of the first decoded object of a decode history
     tasks = []
     weight = {}
     for n, env in envs.items():
@@ -135,14 +150,35 @@ def run(ctx):
             tasks.append(("tie", (repo, n, cfgs[i:i + size], ctx.seed, per_item, exe, True, opts)))
             # the in-place histories of the same slice (own process: own objects, own driver batch)
             tasks.append(("inplace", (repo, n, cfgs[i:i + size], ctx.seed, ip_steps, exe, i)))
+            # decode / mutate the decoded object in place / decode the same bytes again
+            tasks.append(("redecode", (repo, n, cfgs[i:i + size], ctx.seed, rd_steps, exe, i)))
     tasks.sort(key=lambda t: -weight[t[1][1]] * len(t[1][2]))
     mp = multiprocessing.get_context("fork")
     total_structs, total_methods, unsupported = {}, {}, 0
     soft, hard = [], []
     crashed = {}
     ip = {"diffs": [], "histories": 0, "writes": 0, "avail": set(), "seen": set(), "crashed": {}}
+    rd = {"diffs": [], "histories": 0, "decodes": 0, "mutated": 0, "avail": set(), "seen": set(), "crashed": {}}
     with mp.Pool(processes=min(16, os.cpu_count() or 4), maxtasksperchild=1) as pool:
-        for res in pool.imap_unordered(IP.dispatch, tasks):
+        for res in pool.imap_unordered(RD.dispatch, tasks):
+            if res.get("family") == "redecode":
+                if res["error"]:
+                    if "RuntimeError: driver " in res["error"] or "TimeoutExpired" in res["error"] or "MemoryError" in res["error"]:
+                        raise vf.InfraError("redecode worker for %s crashed:\n%s" % (res["module"], res["error"]))
+                    rd["crashed"].setdefault(res["module"], res["error"])
+                    continue
+                for k in res["keys"]:
+                    ctx.case(key=k, nontrivial=True)
+                ctx.evaluations += res["decodes"] - len(res["keys"])
+                for t, c in res["tags"].items(): ctx.tag(t, c)
+                for s_ in res["samples"]:
+                    if not any("redecode_history" in x for x in ctx.samples) and len(ctx.samples) < 7: ctx.samples.append(s_)
+                ctx.traces_validated += res["lines"]
+                rd["histories"] += res["cases"]; rd["decodes"] += res["decodes"]; rd["mutated"] += res["mutated_objects"]
+                rd["avail"].update((res["module"],) + tuple(x) for x in res["avail"])
+                rd["seen"].update((res["module"],) + tuple(x) for x in res["seen"])
+                rd["diffs"].extend(res["diffs"])
+                continue
             if res.get("family") == "inplace":
                 if res["error"]:
                     if "RuntimeError: driver " in res["error"] or "TimeoutExpired" in res["error"] or "MemoryError" in res["error"]:
@@ -238,6 +274,32 @@ def run(ctx):
         ctx.violation("inplace:%s:%s" % (d["module"], item), "%s [%s %s cfg=%s]" % (d["what"], d["module"], item, d["cfg"]),
                       dict(d, how="/venv/bin/python /verif/harness/c13_inplace.py <this file> re-runs the history of a structure on the tree named by NX_REPO; "
                                   "'writes_real' are the bytes of each write of the ONE object, 'writes_definition' the compiled interpreter's (nxdrv_C13) encoding of the value as it stood at that write"))
+    # ---- 4c. histories of decodes: in-message aliasing first (smallest bytes), then structures, then methods
+    rdd = [d for d in rd["diffs"] if (d["module"], d.get("struct") or ("%s.%s" % (d.get("protocol"), d.get("method")))) not in seen_items]
+    rd_structs = {}
+    for d in rdd:
+        if d.get("struct"): rd_structs.setdefault(d["module"], set()).add(d["struct"])
+    rd_inner = {n: (F.innermost(envs[n], ss) if n in envs else set()) for n, ss in rd_structs.items()}
+    # self-contained histories (the bad decode follows mutations of THIS history) before first-decode differences
+    rdd.sort(key=lambda d: (d.get("bad_decode") == 0, 0 if d.get("struct") in rd_inner.get(d["module"], ()) else 1 if d.get("struct") else 2, len(d["bytes"]), d["module"], d["cfg"]))
+    rd_reported = 0
+    for d in rdd:
+        item = d.get("struct") or ("%s.%s" % (d.get("protocol"), d.get("method")))
+        if (d["module"], item, d["side"]) in seen_items or rd_reported >= 12: continue
+        seen_items.add((d["module"], item, d["side"]))
+        rd_reported += 1
+        ctx.violation("redecode:%s:%s:%s" % (d["module"], item, d["side"]), "%s [%s %s cfg=%s, bytes %s]" % (d["what"], d["module"], item, d["cfg"], d["bytes"][:200]),
+                      dict(d, how="/venv/bin/python /verif/harness/c13_redecode.py <this file> re-runs the history of a structure on the tree named by NX_REPO: 'bytes' (made by the compiled "
+                                  "interpreter nxdrv_C13 from the definition) are decoded by the real code, the decoded object is changed in place as 'history' says, the same bytes are decoded again; "
+                                  "every decode must read back as 'definition_decodes_them_to'"))
+    for n, tb in sorted(rd["crashed"].items()):
+        if not per_mod.get(n) and n not in explained and not any(d["module"] == n for d in rd["diffs"]):
+            ctx.corr_break("redecode-worker-crash:" + n, "driving the decode/mutate/decode histories of module %s raised an exception the tie does not expect" % n, {"file": n, "traceback": tb[-3000:]})
+    ctx.extra["redecode_histories"] = rd["histories"]
+    ctx.extra["redecode_decodes_compared"] = rd["decodes"]
+    ctx.extra["redecode_objects_mutated_in_place"] = rd["mutated"]
+    ctx.extra["redecode_item_x_mutation_category_pairs"] = {"available": len(rd["avail"]), "visited": len(rd["avail"] & rd["seen"])}
+    ctx.extra["redecode_disagreements"] = len(rd["diffs"])
     for n, tb in sorted(ip["crashed"].items()):
         if not per_mod.get(n) and n not in explained and not any(d["module"] == n for d in ip["diffs"]):
             ctx.corr_break("inplace-worker-crash:" + n, "driving the write/mutate/write histories of module %s raised an exception the tie does not expect" % n, {"file": n, "traceback": tb[-3000:]})
